@@ -197,6 +197,11 @@ class Grid:
             for name, fn in P.UN.items():
                 self.record(["un", name, fa[0], canon(a)], outcome(lambda: fn(fa[1]())._get_value()),
                             outcome(lambda: fn(a)), False)
+            # two unary operators directly on top of each other (-(-x), ~-x, +(-x), abs(-x) ...)
+            for n1, f1 in list(P.UN.items()) + [("abs", abs)]:
+                for n2, f2 in list(P.UN.items()) + [("abs", abs)]:
+                    self.record(["un.un", n1, n2, fa[0], canon(a)], outcome(lambda: f1(f2(fa[1]()))._get_value()),
+                                outcome(lambda: f1(f2(a))), False)
             for name in ("abs", "trunc", "floor", "ceil"):
                 fn = P.BI[name]
                 self.record(["builtin", name, fa[0], canon(a)], outcome(lambda: fn(fa[1]())._get_value()),
